@@ -293,6 +293,24 @@ def run_wvar(case):
                                   'exact_float': [float(e) for e in exact]}, wit, evals, evals)
                 if sc != '1':
                     continue
+                # the same sample far away from the origin: the variance is shift invariant and the exact value is
+                # known (integer offsets are exactly representable); a one-pass sum-of-squares formula loses everything
+                # to cancellation there, the two-pass formula stays accurate to ~1e-7 relative
+                if dt == 'ff':
+                    for off in case.get('offsets', (10 ** 6, 10 ** 9)):
+                        with np.errstate(all='ignore'):
+                            good2, v2 = _try(wvar, xa + float(off), wa)
+                        evals += 1
+                        if not good2:
+                            return _viol(v2[0].replace('C13:exception', 'C13:weighted_var:exception'), {'error': v2[1]},
+                                         dict(wit, offsets=[off]), evals, evals)
+                        vo = np.asarray(v2, dtype=float).reshape(-1)
+                        for g, e in zip(vo, exact):
+                            e = float(e)
+                            if not (abs(g - e) <= 1e-5 * abs(e) + 1e-5 * (1e-9 * off) ** 2):
+                                return _viol('C13:weighted_var:wrong-far-from-origin',
+                                             {'offset': off, 'got': vo.tolist(), 'exact_float': [float(t) for t in exact]},
+                                             dict(wit, offsets=[off]), evals, evals)
                 # second, numpy-based reading of the same definition (unscaled weights only)
                 wn = np.ones(n) if wa is None else np.asarray(wa, dtype=float)
                 with np.errstate(all='ignore'):
